@@ -923,6 +923,51 @@ func visibilityPackages() []*pkgSpec {
 	return []*pkgSpec{plain, value, rec, foreign, foreignRec}
 }
 
+// fieldCountPackages: the number of fields decides the representation (TupleN up to 21 fields,
+// an HList from 22 on); int and string fields alternate, the values are a one-hot walk.
+func fieldCountPackages() []*pkgSpec {
+	all := allTC()
+	decl := func(name string, n int, value bool) string {
+		var b strings.Builder
+		if value {
+			b.WriteString("// @fp.Value\n")
+		}
+		fmt.Fprintf(&b, "type %s struct {\n", name)
+		for i := 1; i <= n; i++ {
+			typ := "int"
+			if i%2 == 0 {
+				typ = "string"
+			}
+			fmt.Fprintf(&b, "\tf%d %s\n", i, typ)
+		}
+		b.WriteString("}")
+		return b.String()
+	}
+	var out []*pkgSpec
+	for _, g := range []struct {
+		label  string
+		counts []int
+	}{{"1-9", []int{1, 2, 8, 9}}, {"20-21", []int{20, 21}}, {"22-23", []int{22, 23}}, {"30", []int{30}}} {
+		p := &pkgSpec{Name: "field-count/" + g.label}
+		for _, n := range g.counts {
+			n := n
+			p.addTyped("plain", fmt.Sprintf("field-count/%d", n), typeSpec{name: fmt.Sprintf("F%d", n), decl: decl(fmt.Sprintf("F%d", n), n, false), tcs: all}, all, func(t *target) {
+				t.Counts = append(t.Counts, fmt.Sprintf("field-count/%d", n))
+			})
+		}
+		out = append(out, p)
+	}
+	p := &pkgSpec{Name: "field-count/fp.Value"}
+	for _, n := range []int{2, 9, 21, 22, 23} {
+		n := n
+		p.addTyped("plain", fmt.Sprintf("field-count/fp.Value/%d", n), typeSpec{name: fmt.Sprintf("VF%d", n), decl: decl(fmt.Sprintf("VF%d", n), n, true), tcs: all}, all, func(t *target) {
+			t.Counts = append(t.Counts, fmt.Sprintf("field-count/fp.Value/%d", n))
+		})
+	}
+	out = append(out, p)
+	return out
+}
+
 // bytesPackage: []byte fields (eq and hash have Bytes instances, the other packages use Slice).
 func bytesPackage() *pkgSpec {
 	p := &pkgSpec{Name: "plain-bytes/01"}
@@ -1034,6 +1079,7 @@ func allPackages(thorough bool) []*pkgSpec {
 	out = append(out, errorPackage())
 	out = append(out, bytesPackage())
 	out = append(out, visibilityPackages()...)
+	out = append(out, fieldCountPackages()...)
 	if thorough {
 		out = append(out, customPackages(thorough)...)
 	}
